@@ -13,6 +13,8 @@ extern crate rustc_abi;
 extern crate rustc_ast;
 extern crate rustc_driver;
 extern crate rustc_hir;
+extern crate rustc_infer;
+extern crate rustc_trait_selection;
 extern crate rustc_interface;
 extern crate rustc_middle;
 extern crate rustc_session;
